@@ -246,6 +246,84 @@ def run_binary(op, k1, k2, holder):
     return "ok", None
 
 
+THIRD = [5.5, 0.25, 3.0, 7.0, 1.5, 2.5, 4.5, 6.5, 8.5, 9.5, 10.5, 11.5, 12.5, 13.5, 14.5, 15.5]
+
+
+def run_chain(op1, op2, k1, k3, holder, left=True):
+    """(X op1 Y) op2 Z  (or Z op2 (X op1 Y)): the first result is an *operator*, not an element"""
+    from BPTK_Py import Model
+    m = Model(starttime=0, stoptime=3, dt=1, name="arr")
+    f = {"+": np.add, "-": np.subtract, "*": np.multiply, "/": np.divide}
+    a = np.array(values(k1, PRIMES), dtype=float)
+    b = np.array(values(k1, SECOND), dtype=float)
+    c = np.array(values(k3, THIRD), dtype=float)
+    if op1 == "dot":
+        try:
+            first = np.dot(a, b.T) if a.ndim == 2 else np.dot(a, b)
+        except ValueError:
+            return "na", None
+    else:
+        first = f[op1](a, b)
+    first = np.array(first)
+    if is_array(k3) and first.ndim > 0 and first.shape != c.shape:
+        exp = ("reject",)
+    else:
+        exp = ("ok", f[op2](first, c) if left else f[op2](c, first))
+    try:
+        x = make_operand(m, "x", k1, PRIMES)
+        if op1 == "dot" and k1[0] == "mat":
+            # matrix . matrix^T needs a transposed operand: build it as its own constant
+            yt = m.constant("y")
+            bt = b.T
+            yt.setup_matrix([bt.shape[0], bt.shape[1]], [list(r) for r in bt])
+            y = yt
+        else:
+            y = make_operand(m, "y", k1, SECOND)
+        z = make_operand(m, "z", k3, THIRD)
+        e1 = x.dot(y) if op1 == "dot" else {"+": lambda: x + y, "-": lambda: x - y, "*": lambda: x * y, "/": lambda: x / y}[op1]()
+        if left:
+            e2 = {"+": lambda: e1 + z, "-": lambda: e1 - z, "*": lambda: e1 * z, "/": lambda: e1 / z}[op2]()
+        else:
+            e2 = {"+": lambda: z + e1, "-": lambda: z - e1, "*": lambda: z * e1, "/": lambda: z / e1}[op2]()
+        h = getattr(m, holder)("h")
+        if holder == "stock" and exp[0] == "ok" and np.array(exp[1]).ndim > 0:
+            shp = np.array(exp[1]).shape
+            if len(shp) == 1:
+                h.setup_vector(shp[0], 0.0)
+            else:
+                h.setup_matrix([shp[0], shp[1]], 0.0)
+        h.equation = e2
+    except Exception as e:
+        return "rejected", "%s: %s" % (type(e).__name__, str(e)[:80])
+    if exp[0] == "reject":
+        got = []
+        for probe in ([0], [0, 0]):
+            try:
+                e = h
+                for k in probe:
+                    e = e[k]
+                got.append((probe, repr(e(1))))
+            except Exception:
+                pass
+        if got:
+            return "VIOL", {"clause": "chain-accepted-mismatch", "entries": got}
+        return "rejected", "no entry evaluates"
+    want = np.array(exp[1], dtype=float)
+    if holder == "flow":
+        want = np.maximum(want, 0.0)
+    names = None if want.ndim == 0 else [[str(i) for i in range(n)] for n in want.shape]
+    nv, nr, mism = read_entries(h, want, names, 1)
+    if nv == 0:
+        return "rejected", "evaluation raises"
+    if mism:
+        return "VIOL", {"clause": "chain-value", "mismatch": mism[:3]}
+    if nr:
+        return "VIOL", {"clause": "chain-shape/missing-entries", "values": nv, "raises": nr}
+    if extra_entries(h, names):
+        return "VIOL", {"clause": "chain-shape/extra-entries"}
+    return "ok", None
+
+
 AGGS = ["sum", "prod", "mean", "median", "stddev", "size", "rank1", "rank2", "rankN"]
 
 
@@ -319,6 +397,8 @@ def _work(part):
         try:
             if c[0] == "bin":
                 out.append(run_binary(c[1], tuple(c[2]), tuple(c[3]), c[4]))
+            elif c[0] == "chain":
+                out.append(run_chain(c[1], c[2], tuple(c[3]), tuple(c[4]), c[5], c[6]))
             else:
                 out.append(run_agg(c[1], tuple(c[2]), c[3], c[4]))
         except RecursionError:
@@ -337,6 +417,14 @@ def cases(tier):
                     continue
                 for holder in ("converter", "flow", "stock"):
                     out.append(["bin", op, list(k1), list(k2), holder])
+    # chained operations: the left/right operand of the second operator is the *result* of the first
+    for op1 in ("+", "-", "*", "/", "dot"):
+        for op2 in ("+", "-", "*", "/"):
+            for k1 in (("vec", 3), ("mat", 2, 2), ("vec", 1), ("mat", 2, 3)):
+                for k3 in (("num",), ("scalar",), ("vec", 3), ("vec", 2), ("mat", 2, 2), ("mat", 2, 3)):
+                    for holder in ("converter", "flow", "stock"):
+                        for left in (True, False):
+                            out.append(["chain", op1, op2, list(k1), list(k3), holder, left])
     for agg in AGGS:
         for k1 in ks:
             if not is_array(k1):
@@ -360,7 +448,9 @@ def run(ctx):
                 k = str(detail).split(":")[0]
                 rej[k] = rej.get(k, 0) + 1
             if st == "VIOL":
-                if c[0] == "bin":
+                if c[0] == "chain":
+                    sig = "C10/%s/(%s %s %s) %s %s/%s/%s" % (detail["clause"], "-".join(map(str, c[3])), c[1], "-".join(map(str, c[3])), c[2], "-".join(map(str, c[4])), c[5], "left" if c[6] else "right")
+                elif c[0] == "bin":
                     sig = "C10/%s/%s/%s x %s/%s" % (detail["clause"], c[1], "-".join(map(str, c[2])), "-".join(map(str, c[3])), c[4])
                 else:
                     sig = "C10/%s/%s/%s/%s/%s" % (detail["clause"], c[1], "-".join(map(str, c[2])), c[3], c[4])
@@ -369,7 +459,7 @@ def run(ctx):
         "evaluations": len(cs), "distinct_nontrivial": counts["ok"],
         "rule": "all ordered pairs of operand kinds (number, scalar element, vectors 1..n, matrices r x c, named vectors/matrices "
                 "with equal and different names; n = %d) x {+,-,*,/,dot} x result holder {converter, flow, stock}; aggregates x "
-                "operand kinds x holders x operand holder {constant, converter}; non-trivial = accepted and every entry compared with numpy" % (3 if ctx.tier == "quick" else 4),
+                "operand kinds x holders x operand holder {constant, converter}; chained operations (X op1 Y) op2 Z and Z op2 (X op1 Y) over 4 shapes x 6 third operands; non-trivial = accepted and every entry compared with numpy" % (3 if ctx.tier == "quick" else 4),
         "outcomes": counts, "rejected_kinds": rej,
         "samples": cs[:2] + [cs[len(cs) // 3], cs[2 * len(cs) // 3]],
     }, assumptions=["element-wise operators require equal shapes and equal index names (no numpy broadcasting between arrays)",
